@@ -790,7 +790,7 @@ func (c *c06ctx) guardedByHelper(fn *ssa.Function, h string, b *ssa.BasicBlock) 
 			return
 		}
 		// the helper looks at the same processors: same receiver passed on
-		if len(call.Call.Args) == 0 || len(fn.Params) == 0 || call.Call.Args[0] != ssa.Value(fn.Params[0]) {
+		if len(call.Call.Args) == 0 || len(fn.Params) == 0 || resolveCell(call.Call.Args[0]) != ssa.Value(fn.Params[0]) {
 			return
 		}
 		okAll, n := true, 0
@@ -1012,11 +1012,27 @@ func (c *c06ctx) ruleR7() {
 		okAll := pattern != nil
 		cnt := 0
 		Instrs(fn, func(in ssa.Instruction) {
-			if !IsCallTo(in, "fmt.Sprintf") {
+			// the file name given to an installer: fmt.Sprintf(pattern, ...) directly, or through
+			// a one-line helper / closure that formats it
+			call, isCall := in.(*ssa.Call)
+			if !isCall {
 				return
 			}
-			// only Sprintf results that flow into installer calls
-			call := in.(*ssa.Call)
+			fmtCall := call
+			var path []ssa.Instruction
+			if !IsCallTo(in, "fmt.Sprintf") {
+				h := call.Call.StaticCallee()
+				if !isModuleFn(h) || len(h.Blocks) != 1 {
+					return
+				}
+				inner, _ := singleReturn(h).(*ssa.Call)
+				if inner == nil || CalleeName(&inner.Call) != "fmt.Sprintf" {
+					return
+				}
+				fmtCall = inner
+				path = []ssa.Instruction{call}
+			}
+			// only results that flow into installer calls
 			flows := false
 			for _, ref := range *call.Referrers() {
 				if cc := CallOf(ref); cc != nil && cc.StaticCallee() != nil && c.installers[cc.StaticCallee()] != "" {
@@ -1027,7 +1043,7 @@ func (c *c06ctx) ruleR7() {
 				return
 			}
 			cnt++
-			if call.Call.Args[0] != pattern {
+			if resolveCell(ArgForParam(path, fmtCall.Call.Args[0])) != pattern {
 				okAll = false
 			}
 		})
